@@ -17,6 +17,9 @@ import (
 
 var c03FilterX = regexp.MustCompile(`^x`)
 
+// a pattern that also matches the empty string (a missing annotation is not an empty one)
+var c03FilterOpt = regexp.MustCompile(`^x?$`)
+
 // VerifC03Filter: a referrer (image manifest or index with a subject) of the start node is
 // followed exactly when that manifest's artifact type (artifactType, else config media type)
 // or annotation value satisfies the filter — independently of whether the descriptors the
@@ -81,13 +84,17 @@ func VerifC03Filter() {
 	dst := memory.New()
 	opts := ExtendedCopyGraphOptions{}
 	byAnnotation := verifrt.Bool()
+	re := c03FilterX
+	if verifrt.Bool() {
+		re = c03FilterOpt
+	}
 	var want bool
 	if byAnnotation {
-		opts.FilterAnnotation("k", c03FilterX)
-		want = hasAnn && c03FilterX.MatchString(annValue)
+		opts.FilterAnnotation("k", re)
+		want = hasAnn && re.MatchString(annValue)
 	} else {
-		opts.FilterArtifactType(c03FilterX)
-		want = c03FilterX.MatchString(effective)
+		opts.FilterArtifactType(re)
+		want = re.MatchString(effective)
 	}
 	err := ExtendedCopyGraph(ctx, src, dst, subDesc, opts)
 	verifrt.Assert(err == nil, "C03.filter.succeeds")
